@@ -161,13 +161,21 @@ Fixpoint parse_misc_loop_s (fuel : nat) (s : stream) (c : C) : res (stream * C) 
 Definition parse_misc_s (s : stream) (c : C) : res (stream * C) :=
   parse_misc_loop_s (S (length (s_rest s))) s c.
 
-Definition parse_attribute_s (s : stream) : res stream :=
-  let! (_, _, s) := consume_qname_s text s in
+Definition parse_attribute_s (s : stream) : res (slice * slice * stream) :=
+  let! (prefix, local, s) := consume_qname_s text s in
   let! s := consume_eq text s in
   let! (quote, s) := consume_quote text s in
   let! s := skip_chars_r text (fun _ ch => Ok (negb (ch =? quote) && negb (ch =? 60))) s in
   let! _ := slice_back text (s_pos s) s in
-  consume_byte text quote s.
+  let! s := consume_byte text quote s in
+  Ok (prefix, local, s).
+
+Definition parse_pseudo_attribute_s (name : bytes) (s : stream) : res stream :=
+  let start := s_pos s in
+  let! (prefix, local, s) := parse_attribute_s s in
+  if negb (slice_len prefix =? 0) || negb (bytes_eqb (slice_bytes text local) name)
+  then err_from text start (InvalidString name)
+  else Ok s.
 
 Definition decl_consume_spaces_s (s : stream) : res stream :=
   if starts_with_space s then Ok (skip_spaces s)
@@ -181,15 +189,31 @@ Definition parse_declaration_s (s : stream) : res stream :=
   let! s := advance 5 s in
   let! s := decl_consume_spaces_s s in
   ifsw s (b "version") (
-    let! s := parse_attribute_s s in
+    let! s := parse_pseudo_attribute_s (b "version") s in
     let! s := decl_consume_spaces_s s in
     let! s := ifsw s (b "encoding")
-                (let! s := parse_attribute_s s in decl_consume_spaces_s s)
+                (let! s := parse_pseudo_attribute_s (b "encoding") s in decl_consume_spaces_s s)
                 (Ok s) in
-    let! s := ifsw s (b "standalone") (parse_attribute_s s) (Ok s) in
+    let! s := ifsw s (b "standalone") (parse_pseudo_attribute_s (b "standalone") s) (Ok s) in
     let s := skip_spaces s in
     skip_string_s text (b "?>") s)
   (skip_string_s text (b "version") s).
+
+(* the literals of an external id: no strict callee (consume_bytes, is_xml_str slice at the
+   same sites as the quoted branch of parse_entity_def_s) *)
+Definition parse_external_literal_s (s : stream) : res stream :=
+  let! (quote, s) := consume_quote text s in
+  let start := s_pos s in
+  let! (value, s) := consume_bytes text (fun x => negb (x =? quote)) s in
+  let! _ := is_xml_str text value start in
+  consume_byte text quote s.
+
+Definition parse_pubid_literal_s (s : stream) : res stream :=
+  let! (quote, s) := consume_quote text s in
+  let s := skip_bytes (fun x => negb (x =? quote) && pubid_char x) s in
+  let! x := curr_byte s in
+  if negb (x =? quote) then err_at text s InvalidExternalID
+  else advance 1 s.
 
 Definition parse_external_id_s (s : stream) : res (bool * stream) :=
   let! sw1 := starts_with_s text s (b "SYSTEM") in
@@ -199,15 +223,13 @@ Definition parse_external_id_s (s : stream) : res (bool * stream) :=
     let! s := advance 6 s in
     let! id := slice_back text start s in
     let! s := consume_spaces text s in
-    let! (quote, s) := consume_quote text s in
-    let! (_, s) := consume_bytes text (fun x => negb (x =? quote)) s in
-    let! s := consume_byte text quote s in
-    if bytes_eqb (slice_bytes text id) (b "SYSTEM") then Ok (true, s)
+    if bytes_eqb (slice_bytes text id) (b "SYSTEM") then
+      let! s := parse_external_literal_s s in
+      Ok (true, s)
     else
+      let! s := parse_pubid_literal_s s in
       let! s := consume_spaces text s in
-      let! (quote, s) := consume_quote text s in
-      let! (_, s) := consume_bytes text (fun x => negb (x =? quote)) s in
-      let! s := consume_byte text quote s in
+      let! s := parse_external_literal_s s in
       Ok (true, s)
   else Ok (false, s).
 
@@ -225,9 +247,11 @@ Definition parse_entity_def_s (s : stream) (is_ge : bool) : res (option slice * 
     let! (found, s) := parse_external_id_s s in
     if found then
       if is_ge then
+        let has_space := starts_with_space s in
         let s := skip_spaces s in
         ifsw s (b "NDATA")
-          (let! s := advance 5 s in
+          (if negb has_space then err_at text s (InvalidChar2 (b "a whitespace") 78) else
+           let! s := advance 5 s in
            let! s := consume_spaces text s in
            let! s := skip_name_s text s in
            Ok (None, s))
